@@ -160,3 +160,36 @@ package actionlint
 //@ func (*ExprParser).parseLogicalOr
 //@   requires [C01] p.cur != nil && p.lexer != nil
 //@   ensures [C01] p.cur != nil && p.lexer == old(p.lexer)
+
+// "a tree or exactly one error, never both, never neither": every sub-parser returns no tree only after an
+// error was recorded (by the parser or by the lexer); errorf records one like error does; the postfix loop
+// always holds a tree
+//@ func (*ExprParser).parseIdent
+//@   ensures [C04] result == nil ==> p.err != nil || p.lexer.lexErr != nil
+//@ func (*ExprParser).parseNestedExpr
+//@   ensures [C04] result == nil ==> p.err != nil || p.lexer.lexErr != nil
+//@ func (*ExprParser).parseInt
+//@   ensures [C04] result == nil ==> p.err != nil || p.lexer.lexErr != nil
+//@ func (*ExprParser).parseFloat
+//@   ensures [C04] result == nil ==> p.err != nil || p.lexer.lexErr != nil
+//@ func (*ExprParser).parseString
+//@   ensures [C04] result == nil ==> p.err != nil || p.lexer.lexErr != nil
+//@ func (*ExprParser).parsePrimaryExpr
+//@   ensures [C04] result == nil ==> p.err != nil || p.lexer.lexErr != nil
+//@ func (*ExprParser).parsePostfixOp
+//@   ensures [C04] result == nil ==> p.err != nil || p.lexer.lexErr != nil
+//@ func (*ExprParser).parsePrefixOp
+//@   ensures [C04] result == nil ==> p.err != nil || p.lexer.lexErr != nil
+//@ func (*ExprParser).parseCompareBinOp
+//@   ensures [C04] result == nil ==> p.err != nil || p.lexer.lexErr != nil
+//@ func (*ExprParser).parseLogicalAnd
+//@   ensures [C04] result == nil ==> p.err != nil || p.lexer.lexErr != nil
+//@ func (*ExprParser).parseLogicalOr
+//@   ensures [C04] result == nil ==> p.err != nil || p.lexer.lexErr != nil
+//@ func (*ExprParser).errorf
+//@   props C04
+//@   ensures p.err != nil
+//@   ensures old(p.err) != nil ==> p.err == old(p.err)
+//@ func (*ExprParser).parsePostfixOp
+//@   loop "for":
+//@     invariant [C04] ret != nil
